@@ -759,6 +759,101 @@ fn observe(bytes: &[u8]) -> String {
             })
             .collect(),
     ));
+    // MozSoftErrors (UTF-8 text), Mac boot args, Crashpad info
+    let se = dump.get_stream::<MinidumpSoftErrors>();
+    secs.push((
+        status(&se),
+        match &se {
+            Ok(x) => {
+                let mut it: Item = vec![];
+                bytes_full(x.as_ref().as_bytes(), &mut it);
+                vec![it]
+            }
+            Err(_) => vec![],
+        },
+    ));
+    let ba = dump.get_stream::<MinidumpMacBootargs>();
+    secs.push((
+        status(&ba),
+        match &ba {
+            Ok(x) => {
+                let mut it: Item = vec![x.raw.stream_type as i128];
+                match &x.bootargs {
+                    Some(s) => units(s, &mut it),
+                    None => it.push(-1),
+                }
+                vec![it]
+            }
+            Err(_) => vec![],
+        },
+    ));
+    let cp = dump.get_stream::<MinidumpCrashpadInfo>();
+    secs.push((
+        status(&cp),
+        match &cp {
+            Ok(c) => {
+                let mut items: Vec<Item> = vec![];
+                let mut it: Item = vec![0, c.raw.version as i128];
+                for g in [&c.raw.report_id, &c.raw.client_id] {
+                    it.push(g.data1 as i128);
+                    it.push(g.data2 as i128);
+                    it.push(g.data3 as i128);
+                    it.extend(g.data4.iter().map(|&b| b as i128));
+                }
+                items.push(it);
+                for (k, v) in &c.simple_annotations {
+                    let mut it: Item = vec![1];
+                    bytes_full(k.as_bytes(), &mut it);
+                    bytes_full(v.as_bytes(), &mut it);
+                    items.push(it);
+                }
+                for (i, m) in c.module_list.iter().enumerate() {
+                    let i = i as i128;
+                    items.push(vec![
+                        2,
+                        i,
+                        m.module_index as i128,
+                        m.raw.version as i128,
+                        m.list_annotations.len() as i128,
+                        m.simple_annotations.len() as i128,
+                        m.annotation_objects.len() as i128,
+                    ]);
+                    for s in &m.list_annotations {
+                        let mut it: Item = vec![3, i];
+                        bytes_full(s.as_bytes(), &mut it);
+                        items.push(it);
+                    }
+                    for (k, v) in &m.simple_annotations {
+                        let mut it: Item = vec![4, i];
+                        bytes_full(k.as_bytes(), &mut it);
+                        bytes_full(v.as_bytes(), &mut it);
+                        items.push(it);
+                    }
+                    for (k, v) in &m.annotation_objects {
+                        let mut it: Item = vec![5, i];
+                        bytes_full(k.as_bytes(), &mut it);
+                        match v {
+                            MinidumpAnnotation::Invalid => it.push(0),
+                            MinidumpAnnotation::String(s) => {
+                                it.push(1);
+                                bytes_full(s.as_bytes(), &mut it);
+                            }
+                            MinidumpAnnotation::UserDefined(r) => {
+                                it.extend([2, r.ty as i128, r._reserved as i128, r.value as i128]);
+                            }
+                            MinidumpAnnotation::Unsupported(r) => {
+                                it.extend([3, r.ty as i128, r._reserved as i128, r.value as i128]);
+                            }
+                            _ => it.push(-777),
+                        }
+                        items.push(it);
+                    }
+                }
+                items
+            }
+            Err(_) => vec![],
+        },
+    ));
     fmt_sections(&secs)
 }
 
